@@ -18,3 +18,6 @@ PROP = dict(
         "store iteration order = byte order of identifiers (checked by the harness on every case)",
     ],
 )
+
+# translator agreement lemmas (tools/gokernel regenerates Gen/K*.v from /repo on every run)
+PROP["agree"] = ['Gen/AgreeEpochs']
